@@ -503,6 +503,19 @@ int vnadata_convert(const vnadata_t *vdp_in, vnadata_t *vdp_out,
     }
 
     /*
+     * A network without ports has no input impedances.  The Zin vector
+     * must have one row, which would give the result a port (and a
+     * reference impedance) that the input doesn't have.
+     */
+    if ((group & CONV_MASK) == CONV_xtoI && vdp_in->vd_rows == 0) {
+	_vnadata_error(vdip_in, VNAERR_USAGE, "vnadata_convert: "
+		"invalid input dimensions: %d x %d: conversion to Zin "
+		"requires at least one port",
+		vdp_in->vd_rows, vdp_in->vd_columns);
+	return -1;
+    }
+
+    /*
      * Set up the destination structure if it's not the same as the source.
      * Initially set the type to VPT_UNDEF.
      */
